@@ -267,7 +267,7 @@ class Stream:
             self._set_cold_stream_min_max_temperatures()
         else:
             if isinstance(self._heat_flow, float | int):
-                if self._heat_flow > 0.0:
+                if self._heat_flow >= 0.0:
                     # Cold stream
                     self._t_target = self._t_supply + 0.01
                     self._set_cold_stream_min_max_temperatures()
